@@ -445,7 +445,7 @@ func (d *AnimDecoder) compositeFrame(f *Frame) {
 			if sx < 0 || sx >= srcBounds.Dx() {
 				continue
 			}
-			srcPx := src.NRGBAAt(sx, sy)
+			srcPx := src.NRGBAAt(srcBounds.Min.X+sx, srcBounds.Min.Y+sy)
 
 			if f.Blend == BlendNone {
 				d.currFrame.SetNRGBA(x, y, srcPx)
